@@ -9,7 +9,7 @@ EXPLANATION = (
     "D2 the reader takes the name as raw bytes between the parentheses and the RCS Id as the raw line, and splits fields on bytes (no u8-as-char Unicode predicate); "
     "D3 line shapes: checksum line = [digest] \" (\" [name] \") = \" [hash] \"\\n\", size line = \"Size (\" [name] \") = \" [size] \" bytes\\n\", identical in Entry::as_bytes and Distinfo::as_bytes; "
     "the reader's field positions (keyword 0, name 1, value 3) and its size keyword are derived from the writer's shapes and must agree; "
-    "D4 layout: the distfile/patchfile classification equals the naming rule on every feasible predicate assignment and is applied to the lossless-for-ASCII file name (rule shared with C11); header (rcsid or $NetBSD$, blank line), then distfiles (checksum lines then size line), then patchfiles (checksum lines), loops driven by the maps' values() in order")
+    "D4 layout: the distfile/patchfile classification equals the naming rule on every feasible predicate assignment and is applied to the lossless-for-ASCII file name (rule shared with C11); header (rcsid or $NetBSD$, blank line), then distfiles (checksum lines then size line), then patchfiles (checksum lines), loops driven by the maps' values() in order; field tests may be `field == k` or the arm k of `match field`, the name cut `s[1..len-1]` under s[0]=='(' && s[len-1]==')' or strip_prefix(b\"(\") then strip_suffix(b\")\")")
 NOT_DECIDED = [
     "byte-exact equality for every canonical file (std formatting of u64, IndexMap semantics)",
     "sizes on patch entries are not written (the canonical layout has none)",
